@@ -17,7 +17,8 @@ def api_run(scripts, timeout=3000):
 
 
 def ignorable(h, m):
-    return h.startswith("nodes=") and m.startswith("nodes=")
+    # `SKIPPED`: the harness stops running scripts after ten hangs (the hang itself is what gets reported)
+    return (h.startswith("nodes=") and m.startswith("nodes=")) or h == "SKIPPED"
 
 
 def first_diff(hl, ml):
@@ -123,7 +124,10 @@ W = dict
 PROFILES = {
     "C01": [("nesting", dict(intxn_defs=0.5, scoped=0.5, deep_nest=0.5, nest=0.8, unlisten=0.3, unlisten_in_txn=0.3, n_listen=(2, 5), obs=0.2)),
             ("carry-over", dict(n_defs=(4, 10), n_listen=(2, 5), max_defer=3, posts=0.2, nest=0.6, weights=W(defer=5, split=2, map=5, merge=6, orelse=2, snapshot=2, hold=2, gate=1))),
-            ("late-listeners", dict(intxn_defs=0.8, nest=0.9, n_listen=(0, 2)))],
+            ("late-listeners", dict(intxn_defs=0.8, nest=0.9, n_listen=(0, 2))),
+            # a switch over freshly built streams constructed in the same transaction as the sends it must see
+            ("dynamic-in-txn", dict(intxn_defs=0.9, nest=0.95, n_listen=(0, 2), n_defs=(3, 8), sends_per_txn=(1, 3),
+                                    weights=W(switchdyn=5, switchlate=4, switchlatec=4, csink=4, ssink=3, map=3, hold=2, merge=2)))],
     "C02": [("streams", dict(n_defs=(4, 14), samples=0.1, self_merge=True,
                              weights=W(map=5, mapto=1, filter=3, filteropt=1, merge=6, orelse=2, snapshot=3, snapshot1=1, snapshotn=1.5, gate=2, once=2,
                                        hold=1.5, mapc=0.5, lift2=0.5, liftn=0, accum=0.5, collect=0.3, value=0.3, updates=1))),
@@ -137,28 +141,31 @@ PROFILES = {
             ("diamonds-deferred", dict(n_defs=(6, 14), sends_per_txn=(1, 3), samples=0.3, n_listen=(2, 5), max_defer=2, posts=0.2,
                                        weights=W(defer=4, split=1.5, lift2=4, merge=7, orelse=2, snapshot=3, mapc=2, map=4, csink=3, ssink=4, hold=2)))],
     "C04": [("cells", dict(samples=0.9, n_txn=(5, 20), intxn_defs=0.3, n_listen=(0, 2),
-                           weights=W(hold=4, holdlazy=1.5, accum=3, collect=3, accumlazy=1.5, collectlazy=1, snapshot=4, csink=3, gate=1.5, mapc=1, lift2=1))),
+                           weights=W(hold=4, holdlazy=1.5, accum=3, collect=3, accumlazy=1.5, collectlazy=1, snaplazy=1.5, snapshot=4, csink=3, gate=1.5, mapc=1, lift2=1))),
             ("cells-deferred", dict(samples=0.6, n_txn=(4, 12), posts=0.4, max_defer=2, n_listen=(1, 3), sends_per_txn=(1, 3),
                                     weights=W(defer=4, split=2, hold=4, accum=3, collect=2, snapshot=5, snapshot1=1, csink=3, gate=1.5, map=2))),
     ],
-    "C05": [("switch-dynamic", dict(n_defs=(4, 10), sends_per_txn=(1, 4), samples=0.3, wfchecks=0.2,
-                                    weights=W(switchdyn=6, switchs=2, csink=5, ssink=4, hold=2, map=2, merge=2, snapshot=1))),
+    "C05": [("switch-dynamic", dict(n_defs=(4, 10), sends_per_txn=(1, 4), samples=0.3, wfchecks=0.2, intxn_defs=0.3, unused_base=0.6,
+                                    weights=W(switchdyn=6, switchlate=4, switchlatec=5, switchs=2, csink=5, ssink=4, hold=2, map=2, merge=2, snapshot=1))),
             ("switch-defer", dict(n_defs=(5, 11), sends_per_txn=(1, 4), max_defer=2, samples=0.3, wfchecks=0.3,
                                   weights=W(switchs=6, switchc=2, defer=5, split=1, csink=4, ssink=3, map=2, hold=2, merge=2))),
             ("switch", dict(n_defs=(5, 12), samples=0.5, intxn_defs=0.2, sends_per_txn=(1, 4),
                             weights=W(switchs=4, switchc=4, csink=4, hold=3, ssink=4, lift2=1, accum=1)))],
-    "C10": [("listeners", dict(n_listen=(2, 6), unlisten=0.5, unlisten_in_txn=0.5, nest=0.8, intxn_defs=0.6, drops=0.3, gcs=0.3, weak=0.15, weights=W(value=2, hold=3, csink=3))),
+    "C10": [("listeners", dict(n_listen=(2, 6), unlisten=0.5, unlisten_in_txn=0.5, nest=0.8, intxn_defs=0.6, drops=0.3, gcs=0.3, weak=0.15,
+                               unlisten_new_in_txn=0.4, listen_fired_in_txn=0.5, weights=W(value=2, hold=3, csink=3))),
             ("listeners-handles-dropped", dict(n_listen=(3, 6), n_txn=(6, 14), unlisten=0.5, drop_listeners=0.6, drops=0.6, gcs=0.6, weights=W(value=1, hold=2, csink=2, map=3, merge=2)))],
-    "C11": [("loops", dict(n_defs=(3, 9), samples=0.4, nested_cloops=0.5, weights=W(sloop=2.5, cloop=2.5, hold=3, snapshot=4, accum=1, merge=4, gate=1, lift2=2, mapc=2))),
+    "C11": [("loops", dict(n_defs=(3, 9), samples=0.4, nested_cloops=0.5, early_loop_handle=0.4, weights=W(sloop=2.5, cloop=2.5, hold=3, snapshot=4, accum=1, merge=4, gate=1, lift2=2, mapc=2))),
             ("loops-misuse", dict(n_defs=(3, 8), malformed=True, weights=W(sloop=2, cloop=2, hold=3, snapshot=3)))],
     "C12": [("defer-chains", dict(posts=0.3, samples=0.4, obs=0.4, max_defer=3, weights=W(defer=6, split=3, hold=3, csink=3, snapshot=4, snapshot1=2, once=1))),
-            ("deferred", dict(posts=0.4, samples=0.4, sends_per_txn=(1, 4), weights=W(defer=4, split=3, hold=3, csink=3, snapshot=4, snapshot1=2, once=1.5, accum=1)))],
+            ("deferred", dict(posts=0.4, postsends=0.3, samples=0.4, sends_per_txn=(1, 4), weights=W(defer=4, split=3, hold=3, csink=3, snapshot=4, snapshot1=2, once=1.5, accum=1)))],
     "C13": [("lifts", dict(samples=0.9, n_defs=(5, 14), intxn_defs=0.3, sends_per_txn=(1, 4), lazies=0.2,
                            weights=W(mapc=5, lift2=6, liftn=3, csink=4, hold=3, ssink=2, updates=2, value=1, switchc=0.7, cloop=0.7)))],
     "C14": [("brackets-deferred", dict(scoped=0.6, deep_nest=0.5, nest=0.9, obs=0.7, max_defer=3, posts=0.3, weights=W(defer=5, split=3, hold=2, csink=2))),
             ("brackets", dict(scoped=0.7, deep_nest=0.7, nest=0.95, obs=0.6, intxn_defs=0.3, n_txn=(4, 10), malformed=False))],
-    "C15": [("sinks", dict(coalesce_sends=True, sends_per_txn=(1, 5), deep_nest=0.4, scoped=0.3, nest=0.8, samples=0.5, weights=W(ssinkc=6, csink=4, ssink=2, hold=3)))],
-    "C17": [("lazies", dict(lazies=0.9, samples=0.3, n_txn=(4, 14), weights=W(mapc=4, lift2=3, liftn=1, holdlazy=3, hold=3, csink=4, accum=2, accumlazy=2, collectlazy=1, cloop=1)))],
+    "C15": [("sinks", dict(coalesce_sends=True, sends_per_txn=(1, 5), deep_nest=0.4, scoped=0.3, nest=0.8, samples=0.5, weights=W(ssinkc=6, csink=4, ssink=2, hold=3))),
+            ("sinks-posted", dict(coalesce_sends=True, sends_per_txn=(1, 4), nest=0.9, samples=0.4, postsends=0.7, posts=0.2, max_defer=1,
+                                  weights=W(ssinkc=7, csink=3, ssink=2, hold=3, merge=2, defer=1)))],
+    "C17": [("lazies", dict(lazies=0.9, samples=0.3, n_txn=(4, 14), weights=W(mapc=4, lift2=3, liftn=1, holdlazy=3, hold=3, csink=4, accum=2, accumlazy=2, collectlazy=1, cloop=1, snaplazy=3, snapshot=2)))],
     "C18": [("router", dict(n_defs=(4, 10), drops=0.3, gcs=0.3, drop_routers=0.3, weights=W(router=5, route=4, ssink=4, map=3, merge=3, hold=1)))],
     "C06": [("drops", dict(drops=0.8, gcs=0.5, memchecks=0.5, n_defs=(5, 14), n_txn=(4, 12),
                            weights=W(sloop=1.5, cloop=1.5, accum=2, collect=2, switchs=1.5, switchc=1, router=1, defer=1, lift2=2, hold=3, snapshot=3)))],
@@ -277,7 +284,14 @@ def run_api_prop(pid, tier, seed, extra_corpus=()):
         if k < len(corp):
             s = scripts[k]; sig = "corpus/api/" + corp[k][0]       # a corpus replay is reported as it is
         else:
-            s = shrink(scripts[k], pred)
+            if "hangs" in msg:
+                # every trial on a hanging library costs its whole timeout: short timeout, few trials, first hang only
+                if any("hangs" in v["what"] for v in viols): return
+                os.environ["API_SCRIPT_TIMEOUT_MS"] = "700"
+                s = shrink(scripts[k], pred, max_trials=120)
+                os.environ["API_SCRIPT_TIMEOUT_MS"] = "2000"
+            else:
+                s = shrink(scripts[k], pred)
             sig = " ; ".join(s)
         if sig in seen_sigs: return
         seen_sigs.add(sig)
@@ -291,6 +305,7 @@ def run_api_prop(pid, tier, seed, extra_corpus=()):
     # 2. implementation vs S (at most 3 distinct minimised disagreements)
     ngen = 0
     for (k, j, h, m) in bad:
+        if h == "HANG" and k >= len(corp): continue      # a hang is reported (once) by the predicate above; shrinking one costs minutes
         if k >= len(corp):
             if ngen >= 3: break       # corpus mismatches (possibly known findings) never use up the quota
             ngen += 1
